@@ -22,6 +22,7 @@ TraceInit == Init /\ l = 0
 
 Consume(e) ==
   CASE e.ev = "call" ->
+         /\ e.obj \in Objs(sc)          \* a call for something that is no object of the scenario is no step
          /\ CallProcessor(e.obj)
          /\ calls'[Len(calls')] = [obj |-> e.obj, rule |-> e.rule, linked |-> e.linked, inited |-> e.inited]
     [] e.ev = "end" ->
